@@ -556,7 +556,13 @@ func (s *state) append(c *migrate.Change) {
 func alterable(modify *schema.ModifyTable) bool {
 	for _, change := range modify.Changes {
 		switch change := change.(type) {
-		case *schema.RenameColumn, *schema.RenameIndex, *schema.DropIndex, *schema.AddIndex:
+		case *schema.RenameColumn, *schema.RenameIndex, *schema.AddIndex:
+		case *schema.DropIndex:
+			// Indexes that were created implicitly by UNIQUE or PRIMARY KEY constraints
+			// cannot be dropped with DROP INDEX. The table definition must be changed.
+			if strings.HasPrefix(change.I.Name, "sqlite_autoindex") {
+				return false
+			}
 		case *schema.AddColumn:
 			if len(change.C.Indexes) > 0 || len(change.C.ForeignKeys) > 0 {
 				return false
